@@ -309,7 +309,7 @@ def classify_exception(exc):
 class C17(Suite):
     id = "C17"
     props_module = "Cpppo.Props.C17"
-    rule = ("instants at and around every sampled daylight-saving / offset transition (quick: ~40 zones x up to 8 "
+    rule = ("instants at and around every sampled daylight-saving / offset transition (quick: ~50 zones x up to 10 "
             "transitions; thorough: every zone x every transition) at 1 ms steps and sub-millisecond fractions that "
             "round up, year 1 / 1970 / 9999 boundaries, exact binary ties, all precisions 0..6, UTC / zone-key / "
             "abbreviation / numeric renderings; mutated renderings; instant pairs 0.998..1.002 ms apart; durations "
@@ -339,7 +339,7 @@ class C17(Suite):
         if tier == "thorough":
             return allz
         rest = [z for z in allz if z not in FIXED_ZONES]
-        return [z for z in FIXED_ZONES if z in allz] + rng.sample(rest, 18)
+        return [z for z in FIXED_ZONES if z in allz] + rng.sample(rest, 26)
 
     def rt(self, value, p, zone, detail, ms_true=False):
         return {"kind": "rt", "v": float(value).hex(), "p": p, "zone": zone, "detail": detail,
@@ -383,7 +383,7 @@ class C17(Suite):
             for p in (0, 3):
                 for fr in (0.0, 0.5, 0.9996):
                     yield self.rt(sec + fr, p, None, rng.choice(["n", "t", "f"]))
-        n_rand = 1500 if quick else 30000
+        n_rand = 8000 if quick else 30000
         for _ in range(n_rand):
             span = rng.choice([10, 10 ** 5, 2 * 10 ** 9, 2 ** 32, 2 ** 33, 6 * 10 ** 10, 2.5 * 10 ** 11])
             sec = int(rng.uniform(-min(span, 6.2e10), span))
@@ -394,8 +394,8 @@ class C17(Suite):
         for key in zones:
             ex = ZONES.explicit_transitions(key)
             ex = [t for t in ex if MIN_T + 10 * 86400 < t < MAX_T]
-            if quick and len(ex) > 8:
-                ex = ex[:1] + rng.sample(ex[1:-2], 5) + ex[-2:]
+            if quick and len(ex) > 10:
+                ex = ex[:1] + rng.sample(ex[1:-2], 7) + ex[-2:]
             # rule-governed future and distant past
             extra = [rng.randrange(2 ** 31, 2 ** 32), rng.randrange(-2 ** 31, 0), rng.randrange(0, 2 ** 31)]
             fut = ZONES.transitions_in(key, 2 ** 31 + 86400 * 365 * rng.randrange(1, 60), 2 ** 31 + 86400 * 365 * 62)
@@ -438,7 +438,7 @@ class C17(Suite):
 
     def parse_cases(self, tier, rng, zones):
         from cpppo.history.times import timestamp
-        n = 1200 if tier == "quick" else 25000
+        n = 6000 if tier == "quick" else 25000
         fixed = ["", " ", "MST", "2014-01-02", "2014-01-02 03:04", "2014-01-02 03:04:05", "2014-01-02 03:04:05.",
                  "2014-01-02 03:04:05.1234567", "2014-01-02 03:04:05.123456 UTC", "2014-01-02 03:04:05 utc",
                  "2014-01-02 03:04:05 Utc", "2014-01-02 03:04:05 Etc/UTC", "2014-02-29 00:00:00", "2016-02-29 00:00:00",
@@ -482,7 +482,7 @@ class C17(Suite):
                 yield {"kind": "parse", "text": "".join(chars)}
 
     def cmp_cases(self, tier, rng):
-        n = 1500 if tier == "quick" else 30000
+        n = 5000 if tier == "quick" else 30000
         deltas = [0, 1, 2, 499, 500, 501, 998, 999, 1001, 1002, 1499, 1500, 1501, 1999, 2000, 2001, 3000, 10 ** 6]
         for base in (0, 1, -1, 1399326141, -1399326141, 2 ** 31, 2 ** 32 - 7):
             for frac in (0, 1, 499, 500, 999, 500000, 999500, 999999):
@@ -516,7 +516,7 @@ class C17(Suite):
                   604799 * M, 604800 * M, 31557599 * M, 31557600 * M, 31557600 * M * 10000, 31557600 * M * 100000 + 1,
                   -1, -M, -1000, -31557600 * M, -86400 * M - 5, 999999999 * 86400 * M + 86399 * M + 999999):
             yield {"kind": "dur", "d": d}
-        n = 2000 if tier == "quick" else 40000
+        n = 6000 if tier == "quick" else 40000
         for _ in range(n):
             secs = 0
             for u in self.DUR_UNITS:
